@@ -86,7 +86,7 @@ type addrCase struct {
 // evalAddr runs every exported entry point on a and returns the protocol lines with the implementation's answers.
 func evalAddr(a string) addrCase {
 	ac := addrCase{a: a}
-	ip := ipTable(a)
+	ip := "ip=model" // net.ParseIP is answered by the model's own parseIP (Ibx/Model/ParseIP.lean; tied by c04_parseip.go)
 	h := core.HexS(a)
 	add := func(line, impl string) {
 		ac.lines = append(ac.lines, line)
